@@ -163,3 +163,26 @@ def error_trace(out: str, want=("hist",)):
                     pass
         states.append(st)
     return states
+
+
+def sim_last_states(directory: str, want=("hist",)):
+    """Last state of every behaviour file written by `tlc -simulate file=<dir>/tr,num=N`."""
+    import glob
+    out = []
+    for f in sorted(glob.glob(directory + "/tr_*")):
+        text = open(f).read()
+        parts = re.split(r"^STATE_\d+ ==\s*$", text, flags=re.M)
+        if len(parts) < 2:
+            continue
+        body = parts[-1].strip()
+        body = re.split(r"\n\s*\n|\n=+|\n\\\*", body)[0].strip()
+        if body.startswith("/\\"):
+            body = body[2:]
+        st = {}
+        for chunk in re.split(r"\n/\\ ", body):
+            name, _, val = chunk.partition("=")
+            name = name.strip()
+            if name in want:
+                st[name] = parse(val.strip())
+        out.append(st)
+    return out
